@@ -3,12 +3,14 @@
 import json, os, re, shutil, glob, sys
 ROOT='/verif/seeded'
 os.makedirs(ROOT, exist_ok=True)
-for wt in sorted(glob.glob('/tmp/seed-C*')):
+SRC = sys.argv[1] if len(sys.argv) > 1 else '/tmp/seed-C*'
+OFFSET = int(sys.argv[2]) if len(sys.argv) > 2 else 0
+for wt in sorted(glob.glob(SRC)):
     pid=re.search(r'C\d+', os.path.basename(wt)).group(0)
     for n in ('1','2'):
         diff=os.path.join(wt,'seed%s.diff'%n)
         if not os.path.exists(diff): continue
-        d=os.path.join(ROOT,'%s-%s'%(pid,n))
+        d=os.path.join(ROOT,'%s-%d'%(pid,int(n)+OFFSET))
         os.makedirs(d, exist_ok=True)
         shutil.copy(diff, os.path.join(d,'patch.diff'))
         md=os.path.join(wt,'seed%s.md'%n)
